@@ -77,8 +77,12 @@ class Target:
         mask = R.mask_bytes(c.length, list(c.fields.values()) + [(0, 7, 8)])
         if any(cdb[i] & ~mask[i] & 0xFF for i in range(c.length)):
             return self.illegal("%s: reserved bits set in CDB %s" % (c.name, cdb.hex()))
-        din, dout = ev.get("in"), ev.get("out")
-        in_len = len(din) if din is not None else 0
+        if "eff_out" in ev:  # iSCSI: only what the task's direction/length lets through
+            din, dout = ev["eff_in"], ev["eff_out"]
+            in_len = ev["eff_in_len"]
+        else:
+            din, dout = ev.get("in"), ev.get("out")
+            in_len = len(din) if din is not None else 0
         out_len = len(dout) if dout is not None else 0
         name = c.name
 
@@ -156,8 +160,8 @@ class Target:
                 if out_len != self.bs:
                     self.anomalies.append("%s: data-out buffer %d bytes, one block is %d" % (name, out_len, self.bs))
                     return self.illegal("%s: wrong data-out size" % name)
-                block = bytes(dout)
-            if nb > 1 << 16:
+                block = bytes(dout) if dout is not None else b""
+            if nb > 1 << 18:
                 return self.illegal("%s: refusing %d blocks in simulation" % (name, nb))
             for i in range(nb):
                 self.store[lba + i] = block
@@ -170,7 +174,7 @@ class Target:
             if out_len != tl * self.bs:
                 self.anomalies.append("%s: data-out buffer %d bytes, CDB announces %d blocks of %d" % (name, out_len, tl, self.bs))
                 return self.illegal("%s: wrong data-out size" % name)
-            data = bytes(dout)
+            data = bytes(dout) if dout is not None else b""
             for i in range(tl):
                 self.store[lba + i] = data[i * self.bs : (i + 1) * self.bs]
             rec["write"] = (lba, tl)
